@@ -24,11 +24,11 @@ func propSpecs() map[string]*PropSpec {
 	tokStub := "parser.Scan summarised on token-slot sources from tables derived on this run from the real Scan (78 lexemes; one-token locality validated on all lexeme pairs); native replays use the real Scan"
 	add(&PropSpec{
 		ID: "C09", Title: "lexer partitions the source into the documented tokens",
-		Quick: []RunSpec{rs("H_C09", 0, 0), rs("H_C09", 1, 0), rs("H_C09", 2, 0), rs("H_C09", 3, 0), rs("H_C09", 3, 1), rs("H_C09", 6, 2), rs("H_C09", 5, 3), rs("H_C09", 4, 4), rs("H_C09", 4, 6)},
+		Quick: []RunSpec{rs("H_C09", 0, 0), rs("H_C09", 1, 0), rs("H_C09", 2, 0), rs("H_C09", 3, 0), rs("H_C09", 3, 1), rs("H_C09", 6, 2), rs("H_C09", 5, 3), rs("H_C09", 4, 4), rs("H_C09", 4, 6), rs("H_C09", 8, 8)},
 		Thorough: []RunSpec{rs("H_C09", 0, 0), rs("H_C09", 1, 0), rs("H_C09", 2, 0), rs("H_C09", 3, 0), rs("H_C09", 4, 0),
-			rs("H_C09", 4, 1), rs("H_C09", 8, 2), rs("H_C09", 7, 3), rs("H_C09", 6, 4), rs("H_C09", 5, 6)},
+			rs("H_C09", 4, 1), rs("H_C09", 8, 2), rs("H_C09", 7, 3), rs("H_C09", 6, 4), rs("H_C09", 5, 6), rs("H_C09", 9, 8)},
 		Covers: []string{"has-token", "two-tokens", "number", "string", "quoted-ident", "error-token", "ident"},
-		Bounds: map[string]string{"quick": "all byte strings of length <= 3 (full byte range); focused alphabets: numbers <= 3, strings/escapes <= 6, names/backticks/comments <= 5, operators <= 4, layout and odd bytes <= 4",
+		Bounds: map[string]string{"quick": "all byte strings of length <= 3 (full byte range); focused alphabets: numbers <= 3, strings/escapes <= 6, names/backticks/comments <= 5, operators <= 4, layout and odd bytes <= 4, two-literal alphabet {quote backslash t newline a} <= 8",
 			"thorough": "all byte strings of length <= 4 (full byte range); numbers <= 4, strings <= 8, names <= 7, operators <= 6, layout <= 5"},
 		Outside: []string{"sources longer than the bound", "BasicLit.Float64 and Uint64 of float literals (floating point)", "string values containing invalid UTF-8 together with an escape (don't-care)"},
 		Stubs:   []string{"unicode.IsSpace -> models.IsSpace (validated against the real table)", "utf8 decode/encode: engine model of the Go specification", "strings.{TrimLeft,ReplaceAll,ContainsAny} -> models", "strconv.{ParseUint,FormatUint} -> models", "fmt.Sprintf: error texts opaque"},
@@ -99,7 +99,7 @@ func propSpecs() map[string]*PropSpec {
 			}
 		}
 		for c := int64(0); c <= nCorrupt; c++ {
-			for i := int64(0); i < 25; i++ {
+			for i := int64(0); i < 28; i++ {
 				r = append(r, rs("H_C07seed", i, c))
 			}
 		}
@@ -113,7 +113,7 @@ func propSpecs() map[string]*PropSpec {
 		Quick:    c07(5, 3, 1, 8),
 		Thorough: c07(6, 5, 2, 20),
 		Covers:   []string{"in-grammar", "not-in-grammar", "layout-checked", "synonyms"},
-		Bounds: map[string]string{"quick": "all token sequences of length <= 5 (78 lexemes) the reference grammar derives; operator ladders with <= 3 arbitrary binary operators over 6 operand decorations (sign, call, index, parentheses, in-list); 25 seed programs plain and with one arbitrary corruption; layout: one arbitrary gap of 3 bytes over {space tab newline / NBSP} in 8 seed programs, with and without keyword synonyms",
+		Bounds: map[string]string{"quick": "all token sequences of length <= 5 (78 lexemes) the reference grammar derives; operator ladders with <= 3 arbitrary binary operators over 6 operand decorations (sign, call, index, parentheses, in-list); 28 seed programs plain and with one arbitrary corruption; layout: one arbitrary gap of 3 bytes over {space tab newline / NBSP} in 8 seed programs, with and without keyword synonyms",
 			"thorough": "length <= 6; ladders <= 5 operators; two corruptions; layout on all 20 seeds"},
 		Outside: []string{"programs longer/deeper than the bounds", "constructs deliberately not in the reference grammar (no claim either way): chained indexing a[1][2], a comma before summarize's by", "more than one non-canonical gap at a time"},
 		Stubs:   []string{tokStub, "layout family uses the real lexer (nothing stubbed)"},
@@ -121,7 +121,7 @@ func propSpecs() map[string]*PropSpec {
 	c05 := func(maxK, nCorrupt int64) []RunSpec {
 		r := tokRuns("H_C05", maxK, 5)
 		for c := int64(0); c <= nCorrupt; c++ {
-			for i := int64(0); i < 25; i++ {
+			for i := int64(0); i < 28; i++ {
 				r = append(r, rs("H_C05seed", i, c))
 			}
 		}
@@ -135,7 +135,7 @@ func propSpecs() map[string]*PropSpec {
 		Quick:    c05(5, 1),
 		Thorough: c05(6, 2),
 		Covers:   []string{"compiled", "compile-error", "with-ctes"},
-		Bounds: map[string]string{"quick": "all compiling token sequences of length <= 5 over a 64-lexeme vocabulary (every operator word, generated subquery names as identifiers); 25 seed programs plain and with one arbitrary corruption; 6 name-collision shapes with arbitrary tokens in the name slots",
+		Bounds: map[string]string{"quick": "all compiling token sequences of length <= 5 over a 64-lexeme vocabulary (every operator word, generated subquery names as identifiers); 28 seed programs plain and with one arbitrary corruption; 6 name-collision shapes with arbitrary tokens in the name slots",
 			"thorough": "length <= 6; two corruptions"},
 		Outside: []string{"SQL validity beyond the statement grammar (types, unknown columns)", "pass-through function names that are SQL keywords (passed through by name by contract)", "two subqueries the user gave the same name with as"},
 		Stubs:   []string{tokStub},
@@ -147,6 +147,9 @@ func propSpecs() map[string]*PropSpec {
 			for p := int64(0); p < 19; p++ {
 				r = append(r, rs("H_C04", p, m))
 			}
+		}
+		for p := int64(0); p < 19; p++ {
+			r = append(r, rs("H_C04dict", p))
 		}
 		for _, p := range extraPos {
 			for m := maxM + 1; m <= extra; m++ {
@@ -160,7 +163,7 @@ func propSpecs() map[string]*PropSpec {
 		Quick:    c04(3, 4, []int64{0, 6}),
 		Thorough: c04(4, 5, []int64{0, 1, 6, 13, 14, 18}),
 		Covers:   []string{"content-admitted", "compiled", "decoded"},
-		Bounds: map[string]string{"quick": "19 content positions (strings in where/in/call/let/render value; backtick names as table, join table, column, project/extend/summarize alias, as name, chart type, render property, qualified part; unquoted identifier; number; implicit column name) x every content of <= 3 bytes (full byte range for quoted kinds) admitted by the real lexer inside that one token; <= 4 bytes at two positions",
+		Bounds: map[string]string{"quick": "19 content positions (strings in where/in/call/let/render value; backtick names as table, join table, column, project/extend/summarize alias, as name, chart type, render property, qualified part; unquoted identifier; number; implicit column name) x every content of <= 3 bytes (full byte range for quoted kinds) admitted by the real lexer inside that one token; <= 4 bytes at two positions; 19 dictionary contents (true, null, count, $left, SQL fragments, ...) at every quoted position",
 			"thorough": "<= 4 bytes everywhere, <= 5 at six positions"},
 		Outside: []string{"contents longer than the bound (the emitters are byte-wise loops without cross-byte state; argued, not part of the bounded claim)", "decoding under standard-SQL rules of values containing backslashes (structure is required under both lexers, value fidelity under ClickHouse rules)", "numeric value equality between the PQL spelling and its normalised form beyond C09's hex/decimal check"},
 		Stubs:   []string{"nothing stubbed: real Scan, Parse, Compile on symbolic bytes"},
@@ -170,6 +173,9 @@ func propSpecs() map[string]*PropSpec {
 		var r []RunSpec
 		for sh := int64(0); sh < 49; sh++ {
 			r = append(r, rs("H_C01", sh, 0))
+		}
+		for sh := int64(49); sh < 54; sh++ {
+			r = append(r, rs("H_C01", sh, 10))
 		}
 		small := map[int64]bool{0: true, 4: true, 6: true, 9: true, 10: true, 13: true, 17: true, 20: true, 23: true, 26: true, 32: true, 36: true, 40: true}
 		for pos := int64(1); pos < 12; pos++ {
@@ -186,7 +192,7 @@ func propSpecs() map[string]*PropSpec {
 		Quick:    c01(false),
 		Thorough: c01(true),
 		Covers:   []string{"compiled", "meaning-checked", "null-free-checked"},
-		Bounds: map[string]string{"quick": "49 expression shapes (ladders of <= 3 binary operators, every parenthesis placement, signs, indexing, in-lists, each built-in as operand and with operator arguments, pass-through calls of arity 0-3, qualified names, constants) with every binary operator slot arbitrary over the 15 operators, in the where position; 13 of the shapes in all 12 expression positions (project, extend named/unnamed, summarize aggregate and key, sort, take, top key and count, join on, let)",
+		Bounds: map[string]string{"quick": "49 expression shapes (+5 join-condition shapes with one-sided and same-sided comparisons, also under not) (ladders of <= 3 binary operators, every parenthesis placement, signs, indexing, in-lists, each built-in as operand and with operator arguments, pass-through calls of arity 0-3, qualified names, constants) with every binary operator slot arbitrary over the 15 operators, in the where position; 13 of the shapes in all 12 expression positions (project, extend named/unnamed, summarize aggregate and key, sort, take, top key and count, join on, let)",
 			"thorough": "all 49 shapes in all 12 positions"},
 		Outside: []string{"expression trees deeper than the shapes", "the real ClickHouse evaluator: grouping is read with its operator priorities as transcribed in harness/h/sqlparse.go, operators are uninterpreted functions (so the verdict holds for every data type), coalesce / IS NULL / CASE are interpreted"},
 		Stubs:   []string{tokStub},
@@ -215,10 +221,10 @@ func propSpecs() map[string]*PropSpec {
 	})
 	add(&PropSpec{
 		ID: "C16", Title: "the command-line tool compiles exactly the statements it is given", CLI: true,
-		Quick:    []RunSpec{rs("H_C16", 1, 0), rs("H_C16", 2, 0), rs("H_C16multi"), {Harness: "H_C16long", Budget: 80000000}},
-		Thorough: []RunSpec{rs("H_C16", 1, 0), rs("H_C16", 2, 0), rs("H_C16", 3, 1), rs("H_C16multi"), {Harness: "H_C16long", Budget: 80000000}},
-		Covers:   []string{"some-output", "some-statement-failed", "unterminated-final", "read-failure", "multi", "long-line"},
-		Bounds: map[string]string{"quick": "scripts of <= 2 statement slots (9 templates: good/bad/shadowing lets, queries with and without lets, failing query, comment) x 4 separators x line break inside a statement x terminated or not x trailing newline x two read-chunk regimes x read failure at an arbitrary offset; three input files; one line of 70 KB",
+		Quick:    []RunSpec{rs("H_C16", 1, 0), rs("H_C16", 2, 0), rs("H_C16multi"), rs("H_C16multifail"), {Harness: "H_C16line5k", Budget: 80000000}, {Harness: "H_C16long", Budget: 80000000}},
+		Thorough: []RunSpec{rs("H_C16", 1, 0), rs("H_C16", 2, 0), rs("H_C16", 3, 1), rs("H_C16multi"), rs("H_C16multifail"), {Harness: "H_C16line5k", Budget: 80000000}, {Harness: "H_C16long", Budget: 80000000}},
+		Covers:   []string{"some-output", "some-statement-failed", "unterminated-final", "read-failure", "multi", "multi-read-failure", "line-5k", "long-line"},
+		Bounds: map[string]string{"quick": "scripts of <= 2 statement slots (9 templates: good/bad/shadowing lets, queries with and without lets, failing query, comment) x 4 separators x line break inside a statement x terminated or not x trailing newline x two read-chunk regimes x read failure at an arbitrary offset; three input files, also with a read failure at an arbitrary offset of any of them; a script with a 9 KB line (must compile); one line of 70 KB",
 			"thorough": "<= 3 statement slots (three-statement scripts without read failure and with one chunk regime)"},
 		Outside: []string{"main, cobra flag parsing, os.Open/Create, -o, the terminal probe and the mapping of run's error to the exit status (I/O behind os: not encodable; four lines, read)", "an empty piece between two semicolons and an unterminated let at end of input (don't-care: the statement leaves them open)"},
 		Stubs:   []string{"input = harness io.Reader with selector-chosen chunking and failure; output = strings.Builder (engine model); bufio.Scanner interpreted from its source; bytes.IndexByte modelled"},
@@ -226,21 +232,21 @@ func propSpecs() map[string]*PropSpec {
 	})
 	c14 := func(full bool) []RunSpec {
 		var r []RunSpec
-		n := int64(3)
+		pairs := [][2]int64{{0, 0}, {0, 1}, {1, 2}, {2, 2}, {6, 7}, {7, 6}, {1, 7}}
 		if full {
-			n = 6
-		}
-		for i := int64(0); i < n; i++ {
-			for j := int64(0); j < n; j++ {
-				if !full && i != j && (i+j)%2 == 0 {
-					continue
+			pairs = nil
+			for i := int64(0); i < 8; i++ {
+				for j := int64(0); j < 8; j++ {
+					pairs = append(pairs, [2]int64{i, j})
 				}
-				r = append(r, RunSpec{Harness: "H_C14seq", Args: []int64{i, j}, Budget: 4000000})
-				r = append(r, RunSpec{Harness: "H_C14par", Args: []int64{i, j, 0}, Budget: 4000000})
-				r = append(r, RunSpec{Harness: "H_C14par", Args: []int64{i, j, 1}, Budget: 4000000})
 			}
 		}
-		r = append(r, RunSpec{Harness: "H_C14parse", Args: []int64{0, 2}, Budget: 4000000}, RunSpec{Harness: "H_C14parse", Args: []int64{3, 5}, Budget: 4000000})
+		for _, p := range pairs {
+			r = append(r, RunSpec{Harness: "H_C14seq", Args: []int64{p[0], p[1]}, Budget: 4000000})
+			r = append(r, RunSpec{Harness: "H_C14par", Args: []int64{p[0], p[1], 0}, Budget: 4000000})
+			r = append(r, RunSpec{Harness: "H_C14par", Args: []int64{p[0], p[1], 1}, Budget: 4000000})
+		}
+		r = append(r, RunSpec{Harness: "H_C14parse", Args: []int64{0, 2}, Budget: 4000000}, RunSpec{Harness: "H_C14parse", Args: []int64{3, 5}, Budget: 4000000}, RunSpec{Harness: "H_C14parse", Args: []int64{6, 7}, Budget: 4000000})
 		return r
 	}
 	add(&PropSpec{
@@ -248,8 +254,8 @@ func propSpecs() map[string]*PropSpec {
 		Quick:    c14(false),
 		Thorough: c14(true),
 		Covers:   []string{"history-checked", "schedules-checked"},
-		Bounds: map[string]string{"quick": "pairs from 3 programs: call histories i,j,i,j; nil/zero/empty options; every iteration order of every map iterated (symbolic permutation); two concurrent Compile calls sharing their options, first use in the process (cold) and warm, every interleaving at the granularity of visible operations (sync operations and accesses to shared locations written by any explored execution); concurrent Parse/Scan",
-			"thorough": "all pairs from 6 programs"},
+		Bounds: map[string]string{"quick": "7 pairs from 8 programs (successes, failures with sorted-key and position texts, a failed call with an unterminated escaped literal followed by a call with an escaped literal): call histories i,j,i,j; nil/zero/empty options; every iteration order of every map iterated (symbolic permutation); two concurrent Compile calls sharing their options, first use in the process (cold) and warm, every interleaving at the granularity of visible operations (sync operations and accesses to shared locations written by any explored execution); concurrent Parse/Scan",
+			"thorough": "all 64 pairs from 8 programs"},
 		Outside: []string{"more than two goroutines (follows from pairwise race-freedom; stated, not checked)", "the Go runtime's own scheduler and map implementation", "interleavings finer than visible operations (operations on thread-local or never-written data commute)"},
 		Stubs:   []string{"sync.Once / sync.Mutex: engine models with happens-before clocks", "map iteration order: symbolic permutation"},
 		Assume:  []string{"a data race is confirmed natively by the Go race detector on a -race build of the same harness"},
@@ -257,10 +263,10 @@ func propSpecs() map[string]*PropSpec {
 	big := func(h string, args ...int64) RunSpec { return RunSpec{Harness: h, Args: args, Budget: 10000000} }
 	add(&PropSpec{
 		ID: "C02", Title: "tabular operators take effect strictly in pipeline order",
-		Quick:    []RunSpec{big("H_C02", 1, 0), big("H_C02", 1, 2), big("H_C02", 2, 1), big("H_C02", 2, 2), big("H_C02", 3, 1)},
-		Thorough: []RunSpec{big("H_C02", 1, 0), big("H_C02", 1, 3), big("H_C02", 2, 1), big("H_C02", 2, 2), big("H_C02", 2, 3), big("H_C02", 3, 1), big("H_C02", 3, 2), big("H_C02", 4, 1)},
+		Quick:    []RunSpec{big("H_C02", 1, 0), big("H_C02", 1, 2), big("H_C02", 2, 1), big("H_C02", 2, 2), big("H_C02", 3, 1), big("H_C02limits", 2), big("H_C02limits", 3)},
+		Thorough: []RunSpec{big("H_C02", 1, 0), big("H_C02", 1, 3), big("H_C02", 2, 1), big("H_C02", 2, 2), big("H_C02", 2, 3), big("H_C02", 3, 1), big("H_C02", 3, 2), big("H_C02", 4, 1), big("H_C02limits", 2), big("H_C02limits", 3), big("H_C02limits", 4)},
 		Covers:   []string{"compiled", "results-compared", "non-empty-result", "with-ctes"},
-		Bounds: map[string]string{"quick": "every well-typed pipeline of <= 2 operators from 25 templates (where/filter, project, extend named and unnamed, summarize with and without keys, sort/order with every direction/nulls form, take/limit incl. 0, top, count, as, render with and without properties) on every table T(a,b) of <= 2 rows of nullable integers in {0,1,2}; <= 3 operators on every 1-row table; the empty table for single operators",
+		Bounds: map[string]string{"quick": "every well-typed pipeline of <= 2 operators from 25 templates (where/filter, project, extend named and unnamed, summarize with and without keys, sort/order with every direction/nulls form, take/limit incl. 0, top, count, as, render with and without properties) on every table T(a,b) of <= 2 rows of nullable integers in {0,1,2}; <= 3 operators on every 1-row table; the empty table for single operators; sequences of <= 3 row limits (literals of different digit counts, leading zeros, top) on every 3-row table",
 			"thorough": "<= 3 operators on <= 2 rows, <= 2 operators on 3 rows, 4 operators on 1 row"},
 		Outside: []string{"ClickHouse's actual executor: both sides are evaluated by reference evaluators with ordered-list semantics (every SELECT preserves its input order unless it has ORDER BY, groups in order of first appearance)", "aliases that shadow an existing column inside one SELECT (programs use fresh names)", "names of columns the program does not state (count, unnamed extend) are compared by position only", "tables wider than 2 columns, values outside {NULL,0,1,2}"},
 		Stubs:   []string{"nothing stubbed in the code under test (real lexer, parser, compiler on concrete programs drawn by selectors); cell values are symbolic"},
@@ -279,7 +285,7 @@ func propSpecs() map[string]*PropSpec {
 	})
 	seeds13 := func(n int64) []RunSpec {
 		var r []RunSpec
-		for i := int64(0); i < 25; i++ {
+		for i := int64(0); i < 28; i++ {
 			r = append(r, rs("H_C13seed", i, n))
 		}
 		return r
@@ -289,7 +295,7 @@ func propSpecs() map[string]*PropSpec {
 		Quick:    append(append([]RunSpec{rs("H_C13a", 1, 0), rs("H_C13a", 2, 0), rs("H_C13a", 3, 5)}, tokRuns("H_C13b", 5, 0)...), seeds13(1)...),
 		Thorough: append(append(append([]RunSpec{rs("H_C13a", 1, 0), rs("H_C13a", 2, 0), rs("H_C13a", 3, 0), rs("H_C13a", 5, 5)}, tokRuns("H_C13b", 6, 0)...), seeds13(1)...), seeds13(2)...),
 		Covers:   []string{"accepted", "rejected", "breaks-rule", "keeps-rules", "compiled", "compile-error"},
-		Bounds: map[string]string{"quick": "either/or: all byte strings of length <= 2, <= 3 focused, 5 parameter maps; exactly-when: all token sequences of length <= 5 over the full vocabulary and 25 seed programs (calls, joins, lets at depth) with one arbitrary corruption",
+		Bounds: map[string]string{"quick": "either/or: all byte strings of length <= 2, <= 3 focused, 5 parameter maps; exactly-when: all token sequences of length <= 5 over the full vocabulary and 28 seed programs (calls, joins, lets at depth) with one arbitrary corruption",
 			"thorough": "bytes <= 3 (<= 5 focused); token sequences <= 6; seeds with one and two corruptions"},
 		Outside: []string{"render property values (not an expression position of the rule list)", "parameter maps in the exactly-when part (covered by C06)", "programs beyond the bounds"},
 		Stubs:   []string{tokStub},
